@@ -210,9 +210,9 @@ pub fn lambdas(d: Dot) -> &'static [&'static str] {
     match d {
         Dot::Elem => &[
             ".", ".a", ".k", ".v", ".g", "(+ . 1)", "(size .)", "(? (> . 1) . .nope)", "(> . 1)", "(string? .)", "(get . 0)", "(% . 3)", "(stringify .)", "null", "1", "(% .i 2)", ".k.x", "(= . \"a\")", "(number? .)", "(concat . \"!\")", "(? (number? .) (+ . 0.5) .nope)",
-            ".i",
+            ".i", "(now)",
         ],
-        Dot::Val => &[".", "(+ . 1)", "(> . 1)", "(size .)", "(? (number? .) . .nope)", "(string? .)", "(% . 2)", "null", "(stringify .)", "(- .)"],
+        Dot::Val => &["(now)", ".", "(+ . 1)", "(> . 1)", "(size .)", "(? (number? .) . .nope)", "(string? .)", "(% . 2)", "null", "(stringify .)", "(- .)"],
         Dot::Key => &[".", "(concat . \"x\")", "(= . \"a\")", "(size .)", "(> . \"a\")", "(head . 1)", "\"same\"", "(? (= . \"a\") . .nope)", "1", "(match . \"^[a-b]\")"],
         Dot::Fold => &[
             ".value", ".value.a", "(+ .so_far .value)", "(default (+ .so_far .value) .value)", "(? (> .value 1) .value .nope)", ".index", "(? (= .index 1) .nope .value)", ".so_far", "(default .so_far .value)", "(push (default .so_far []) .value)",
